@@ -33,6 +33,8 @@ type hubPre struct {
 	mdnsHadA         bool
 	closedRegistered bool
 	shipIDA0         string // SHIP ID the application supplied for A ("" = none)
+	delayedCounter   int    // counter carried by the delayed dial of this step
+	counterA0        int
 }
 
 func newHubPre(withConn bool) *hubPre {
@@ -51,7 +53,8 @@ func newHubPre(withConn bool) *hubPre {
 	}
 	if zzvrt.Bool("A.hascounter") {
 		p.counterA = true
-		e.h.connectionAttemptCounter[skiA] = zzvrt.Int("A.counter", 0, 2)
+		p.counterA0 = zzvrt.Int("A.counter", 0, 2)
+		e.h.connectionAttemptCounter[skiA] = p.counterA0
 	}
 	if zzvrt.Bool("A.attemptRunning") {
 		e.h.connectionAttemptRunning[skiA] = true
@@ -133,7 +136,8 @@ func (p *hubPre) doOp(op int, x string) {
 		h.ReportMdnsEntries(entries, zzvrt.Bool("mdns.new"))
 	case opDelayedDial:
 		// a delayed dial attempt scheduled by an earlier mDNS report (any counter value)
-		h.prepareConnectionInitation(x, zzvrt.Int("op.counter", 0, 2), mdnsEntry(x))
+		p.delayedCounter = zzvrt.Int("op.counter", 0, 2)
+		h.prepareConnectionInitation(x, p.delayedCounter, mdnsEntry(x))
 	case opPairedQuery:
 		r := h.IsRemoteServiceForSKIPaired(x)
 		zzvrt.Assert(r == h.ServiceForSKI(x).Trusted(), "C01.paired-query-differs-from-trust")
@@ -147,10 +151,7 @@ func (p *hubPre) doOp(op int, x string) {
 		h.Shutdown()
 	}
 	// goroutines: direct dial for queued services, delayed dial, delayed notification
-	zzvrt.RunSpawned("prepareConnectionInitation")
-	zzvrt.RunSpawned("coordinateConnectionInitations$1")
-	zzvrt.RunSpawned("HandleShipHandshakeStateUpdate$1")
-	zzvrt.RunSpawned("ReportMdnsEntries")
+	zzvrt.RunAll()
 }
 
 func isReportable(s int) bool {
@@ -265,6 +266,26 @@ func H_Hub_Step() {
 		zzvrt.Assert(dialsA >= 1, "C05.visible-trusted-peer-not-dialled")
 		zzvrt.Assert(dialsA <= 2, "C05.too-many-dials-for-one-report") // host name, then the (empty) address list
 	}
+	if op == opDelayedDial && onA {
+		// the delayed attempt is over, whatever it did: the next mDNS report may start a new one
+		zzvrt.Assert(!h.connectionAttemptRunning[skiA], "C05.attempt-running-flag-left-set")
+		// the attempt is carried out when it is still the current one (same counter), the peer is still wanted and not
+		// connected; when every address fails the hub asks mDNS again (the retry chain must not end silently)
+		if !down && p.counterA && p.delayedCounter == p.counterA0 && (p.trustA0 || p.stateA0 == api.ConnectionStateQueued) && p.cA == nil {
+			zzvrt.Assert(dialsA >= 1, "C05.current-delayed-attempt-not-carried-out")
+			if p.trustA0 && len(h.connections) == 0 {
+				failed := 0
+				for _, ev := range p.e.log.Ev {
+					if ev.Kind == hvDialFailed {
+						failed++
+					}
+				}
+				if failed == dialsA {
+					zzvrt.Assert(requests >= 1, "C05.failed-attempt-not-followed-by-a-new-look-at-mdns")
+				}
+			}
+		}
+	}
 	if op == opConnClosed && onA && p.closedRegistered && p.trustA0 {
 		zzvrt.Assert(announces >= 1 && requests >= 1, "C05.lost-trusted-connection-not-reannounced")
 		_, still := h.connections[skiA]
@@ -341,7 +362,7 @@ func H_Hub_C11_Closed() {
 	}
 	completed := zzvrt.Bool("completed")
 	h.HandleConnectionClosed(closing, completed)
-	zzvrt.RunSpawned("ReportMdnsEntries")
+	zzvrt.RunAll()
 	got, stillA := h.connections[skiA]
 	if closing == cA && cA != nil {
 		zzvrt.Assert(!stillA, "C11.registered-connection-not-forgotten")
